@@ -757,6 +757,23 @@ def gen_C07(tier, rng):
         ins += [("leaf", False, s, big), ("op", ("ln",), [3]), ("op", ("recip",), [3]), ("op", ("powf", 0.5), [3]),
                 ("op", ("powf", -1.0), [3])]
         cases.append(case("extreme", ins, "extreme_values", rtol=1e-6))
+    # reshape of TRACKED and untracked arrays to the same dimensions with unit dimensions appended, removed or moved:
+    # the result always has exactly the requested dimensions (and is then used in a broadcasting product)
+    for s in ([3], [2, 2], [2, 3, 1], [1, 3], [4, 1, 1]):
+        n = prod(s)
+        core = [d_ for d_ in s if d_ != 1] or [1]
+        targets = [core + [1], core + [1, 1], [1] + core, core, s + [1], [1] + s]
+        for tr in (False, True):
+            ins = [("leaf", tr, s, [float(i + 1) for i in range(n)])]
+            for t in targets:
+                if prod(t) == n and len(t) <= 5:
+                    ins.append(("op", ("reshape", t), [0]))
+            k0 = len(ins)
+            for j in range(1, k0):
+                ins.append(("op", ("mul",), [j, 0]) if bcompat(ins[j][1][1], s) else ("obs", j))
+            if tr:
+                ins += [("backward", k0 - 1, None), ("grad", 0)]
+            cases.append(case("reshape_units", ins, "reshape_unit_dimensions:%s" % ("tracked" if tr else "untracked")))
     # one buffer under several shapes (reshape shares storage): every reduction and map is decided by the
     # dimensions of the handle it is called on, in whatever order the views are used
     for s in ([2, 3], [3, 2], [6], [2, 2], [4], [2, 1, 3], [1, 6], [2, 2, 2]):
@@ -3341,6 +3358,8 @@ def model_case(rng, tier):
                            [rng.uniform(-0.5, 0.5) for _ in range(count)]))
             d, r, c = count, (r - fr) // sr + 1, (c - fc) // sc + 1
     lr = rng.choice([0.1, 0.5, 0.01, 1.0]) if not (big or huge) else rng.choice([0.01, 0.05])
+    if not (big or huge) and rng.random() < 0.06:
+        lr = 0.0        # a zero rate (warm-up): parameters keep their values but are still re-bound without gradient
     ins = [("model", layers, cost, lr)]
     # fine-tuning: some layers frozen (stop_tracking on their parameters through Layer::parameters() before the
     # model is built), at least the last one trained.  The program DSL of the Coq model has no such instruction, so
